@@ -77,6 +77,11 @@ func init() {
 		c.fr.store(c.st, c.fr.addrOf(p), nv)
 		er := e.vc.fresh("jsonerr", "Iface")
 		data := e.bvOf(c.st, c.args[0])
+		// whether the input decodes into this type is a function of the input bytes: jsonok("T", data) in contracts
+		okfn := "jsonok_" + mangle(typeKey(el))
+		e.declAddr()
+		e.vc.declFun(okfn, []string{"BV"}, "Bool")
+		e.assumeIn(c.st, eq(eq(er, "iface_nil"), app(okfn, data)))
 		for _, path := range e.sliceFieldPaths(el, 2) {
 			fn, sel := e.jsonLenFn(el, path)
 			e.assumeIn(c.st, implies(eq(er, "iface_nil"), eq(app("slen", sel(nv.S)), app(fn, data))))
